@@ -197,3 +197,12 @@ SPECS["C15"] = node_spec(
     "the cross-node clause (installed state equals that of a node that applied the log to the snapshot index), the application state, and the step-level frame of compaction are not proved.",
     "DESIGN.md section 7, C15",
     "Theorems: Props/C15.v over M/Raft.v, M/RaftLog.v, M/MemStorage.v. Tie: pointwise differential, projection log+conf+progress+replication/response traffic.")
+
+SPECS["C09"] = node_spec(
+    "C09", ["conf", "hard", "log", "result"], "conf_change",
+    "Props/C09.v (46 pinned theorems, every node state and input): the proposal filter is characterised completely (a conf-change entry is kept iff nothing is pending and it fits the joint state, otherwise replaced by an empty normal entry; a decode error drops the proposal; at most one survives a proposal); the leader invariant 'every conf-change entry above applied is at or below pending_conf_index' is established by become_leader and preserved by every function of the Raft and RawNode models; no node campaigns (timeout, MsgHup, MsgTimeoutNow) while has_unapplied_conf_changes answers true, and a (pre-)candidate that learns a committed conf change through vote traffic steps down; a non-promotable node never campaigns by tick or MsgTimeoutNow and promotable = voter after every configuration switch; a rejected apply_conf_change leaves the node untouched and a successful one yields exactly the ConfChange model's configuration (C12); auto-leave is proposed once.",
+    "the cross-node clause (nodes at the same applied index have identical configurations, also after restart) and the literal whole-log 'at most one conf entry beyond applied' are protocol-level and not proved (the latter is refuted for a restarted node whose applied index lags, with a witness); Raft::new is not in the model.",
+    "DESIGN.md section 7, C09",
+    "Theorems: Props/C09.v over M/Raft.v, M/RawNode.v. Tie: pointwise differential, projection conf+hard+log+results.")
+
+SPECS["C09"]["incoq"] = {"quick": 40, "thorough": 200}
